@@ -5,7 +5,7 @@ from .render import schema_lines, cmp_sec
 from .lexcheck import conv_schema, conv_obs, b2s
 
 
-def replay(verdict, exe, res, seed=0, tag="scan", sigprefix="scan"):
+def replay(verdict, exe, res, seed=0, tag="scan", sigprefix="scan", via="parsebuf"):
     schema = conv_schema(res.schemas[1])
     fsj = res.extra["FS"][0]
     fslines = ["fs file %s %s" % (enc(b2s(n)), enc(b2s(t))) for n, t in zip(fsj["names"], fsj["texts"])]
@@ -17,10 +17,10 @@ def replay(verdict, exe, res, seed=0, tag="scan", sigprefix="scan"):
             if e["e"] == "free":
                 lines += ["free %s" % c, "init %s S 0" % c]
             else:
-                lines.append("parsebuf %s %s" % (c, enc(b2s(e["text"]))))
+                lines.append("%s %s %s" % (via, c, enc(b2s(e["text"]))))
         lines.append("init c3 S 0")
         for p in b["probes"]:
-            lines.append("parsebuf c3 %s" % enc(b2s(p["text"])))
+            lines.append("%s c3 %s" % (via, enc(b2s(p["text"]))))
         lines += ["free c1", "free c2", "free c3"]
         bid = "h%d" % n
         scripts.append((bid, "\n".join(lines)))
@@ -39,18 +39,18 @@ def replay(verdict, exe, res, seed=0, tag="scan", sigprefix="scan"):
         if g["crash"]:
             verdict.violation("%s:%s:%s" % (sigprefix, g["crash"]["kind"], desc), "history %s :: %s" % (desc, g["crash"]["detail"][:1000]), rep)
             continue
-        pl = [l for l in g["lines"] if l["cmd"] == "parsebuf"]
+        pl = [l for l in g["lines"] if l["cmd"] == via]
         evs = [e for e in b["hist"] if e["e"] != "free"]
         steps = [(e, "c%d" % e["c"]) for e in evs] + [(p, "c3") for p in b["probes"]]
         if len(pl) != len(steps):
             raise ModelError("observation count mismatch")
         probs = []
         # cross-talk: between two consecutive observations only the acting context may change
-        emitting = [l for l in g["lines"] if l["cmd"] in ("init", "free", "parsebuf")]
+        emitting = [l for l in g["lines"] if l["cmd"] in ("init", "free", via)]
         actors = []
         for sl in scripts_by_id[bid]:
             w = sl.split(" ")
-            if w[0] in ("init", "free", "parsebuf"):
+            if w[0] in ("init", "free", via):
                 actors.append(w[1])
         for (a, b2, actor) in zip(emitting, emitting[1:], actors[1:]):
             for oc in ("c1", "c2", "c3"):
@@ -65,6 +65,11 @@ def replay(verdict, exe, res, seed=0, tag="scan", sigprefix="scan"):
                     probs.append("%s: return code %d, expected %d" % (what, line["ret"], want))
                 if e["status"] == "fail" and not line["diag"]:
                     probs.append("%s: rejected without diagnostic" % what)
+                if e["status"] == "fail" and e.get("dline") and line["diag"]:
+                    d0 = line["diag"][0]
+                    wantf = "[buf]" if via == "parsebuf" else "FILE"
+                    if d0["line"] != e["dline"] or d0["file"] != wantf:
+                        probs.append("%s: first diagnostic at %s:%s, expected %s:%s" % (what, d0["file"], d0["line"], wantf, e["dline"]))
                 d = []
                 cmp_sec(conv_obs(e["obs"]), line["ctx"].get(c), "", d, {"mod": "none", "cmt": False})
                 if d:
